@@ -137,6 +137,32 @@ void harness(void)
   if (ghost_len >= 64) for (int i = 0; i < 64; i++) CHECK(GHOST[i] == (u8)((i < 16 ? IN.key[i] : 0) ^ 0x36), "HMAC inner pad block carries all 16 key bytes");
   WITNESS_POINT();
 }
+#elif defined(H_SEEK)
+/* C01: decryption positions the input after header and IV table for EVERY worker count 1..16 (prepare_IV + prepare_AES on a
+   runcrypt with THREADS workers; no hashing involved) and builds THREADS streams from the first stored IV */
+u8 *vf_rc_prepare_iv_file(u8 *r); u8 *vf_rc_prepare_aes(u8 *r, u8 ctype, u8 *iv, u32 enc);
+void harness(void)
+{
+  LOAD_INPUTS();
+  u8 key[16];
+  memcpy(key, IN.key, 16);
+  memcpy(FILEB, IN.file, FLEN);
+  u8 *fin = envf_open_in(FILEB, FLEN);
+  u8 *out = envf_open_out(OUTCAP);
+  u8 *r = vf_rc_new(fin, out, key, (u32)-1, (u32)-1, THREADS);
+  u8 *iv = vf_rc_prepare_iv_file(r);
+  for (u32 i = 0; i < 20 * THREADS; i++) CHECK(iv[i] == FILEB[48 + i], "IV table read from offset 48, 20 bytes per worker");
+  u8 ct = IN.alt % 5;
+  u8 *modes = vf_rc_prepare_aes(r, ct, iv, 0);
+  CHECK(envf_tell(fin) == 48 + 20 * THREADS, "decryption starts after header and IV table (48 + 20T)");
+  CHECK(vf_bg_size() == THREADS && vf_bg_fin() == fin && vf_bg_fout() == out && vf_bg_ispadding() == 0, "pipeline configured for T workers, decrypt direction");
+  for (u32 i = 0; i < THREADS; i++) {
+    u8 *m = ((u8 **)modes)[i], reg[16];
+    CHECK(m != 0, "one stream object per worker");
+    if (m) { vf_mode_getiv(m, reg); for (int k = 0; k < 16; k++) CHECK(reg[k] == FILEB[48 + k], "streams start from the first stored IV"); }
+  }
+  WITNESS_POINT();
+}
 #elif defined(H_VERIFY_EQ_DECRYPT)
 /* C12: verification succeeds exactly when decryption of the same bytes with the same key succeeds */
 void harness(void)
